@@ -175,6 +175,7 @@ class RunResult:
   violation: Optional[dict]
   stats: dict
   crash: Dict[int, str]
+  meta: Optional[dict] = None   # where the execution came from (for replay files)
 
 
 class Session:
@@ -290,3 +291,166 @@ def run_scheduled(cfg: RunConfig, quiet: float = 0.01) -> RunResult:
     if status != 'done':
       ses.s.abort()
     return ses.result(status)
+
+
+# ------------------------------------------------------------------------------------------------
+# S -> C: a behaviour of Sampling.tla (from TLC) is forced onto the real threads.
+
+# spec action -> hook event(s) that witness it
+EVENT_OF = {
+    'GocTest': ('goc_test',), 'GocStore': ('goc_store',), 'AcqReg': ('acquire_reg',), 'RelReg': ('release_reg',),
+    'SetupTest': ('setup_test',), 'SetupBegin': ('alg_setup_begin',), 'SetupDo': ('alg_setup',),
+    'NextActive': ('next_active',), 'NextLookup': ('next_lookup',), 'NextStatus': ('next_status',),
+    'AcqStudy': ('acquire_study',), 'RelStudy': ('release_study',), 'CheckMax': ('check_max',),
+    'AcqAlg': ('acquire_alg',), 'Propose': ('propose',), 'Alloc': ('alloc',), 'AppendTrial': ('append_trial',),
+    'ReadReward': ('sample_reward',), 'ShortAdd': ('add_measurement',), 'Choose': ('user_op',),
+    'AddMeasurement': ('add_measurement',), 'DoneTest': ('done_test', 'skip_test'), 'DoneSet': ('done_set',),
+    'SetFitness': ('evo_fitness',), 'EvoPopulation': ('evo_population',), 'RelAlg': ('release_alg',),
+    'AlgFeedback': ('alg_feedback',), 'CompleteCounts': ('complete_counts',), 'BestRead': ('best_read',),
+    'CompleteDone': ('complete',), 'EndLoop': ('end_loop',),
+}
+STUTTER = ('want_study', 'want_alg', 'want_reg', 'fed', 'finish', 'evo_proposed')
+ACQUIRE_ACTIONS = ('AcqStudy', 'AcqAlg', 'AcqReg')
+
+
+def _lock_of_step(action: str, w: int, pre: dict):
+  """Which specification lock the acquire step (action, w) takes, given the state before it."""
+  if action == 'AcqStudy':
+    return ('study', pre['myStudy'][w - 1])
+  if action == 'AcqAlg':
+    return ('alg',)
+  if action == 'AcqReg':
+    return ('reg',)
+  return None
+
+
+def _spec_holder(lock, state: dict):
+  if lock[0] == 'study':
+    return state['studyLock'][lock[1] - 1]
+  if lock[0] == 'alg':
+    return state['algLock']
+  return state['regLock']
+
+
+def _is_null(v) -> bool:
+  return v is None or str(v) == 'NULL'
+
+
+def run_forced(cfg: RunConfig, steps: Sequence, warm: bool, *, tail: bool = True, quiet: float = 0.01,
+               probes: bool = True) -> RunResult:
+  """Forces the behaviour `steps` (sequence of (action, worker, state_before, state_after)) onto the
+  real threads at hook granularity.
+
+  At states where the specification says that a worker's next step (an acquire) is disabled because
+  another worker holds the lock, and that worker is the next one to take the lock in the behaviour, a
+  negative probe is run: the worker is resumed and must not produce any event.
+
+  The recorded execution is returned for validation by TLC; divergences (the code cannot follow the
+  behaviour) are reported in `violation`."""
+  rng = random.Random(f'{cfg.seed}/forced')
+  with Session(cfg, quiet) as ses:
+    s = ses.s
+    s.start(ses.fns())
+    status = 'done'
+    diverged = None
+    stats = {'forced_steps': 0, 'probe_opportunities': 0}
+    if warm:
+      for w in s.workers():
+        while s.state[w] != sched.FINISHED and not constructor_done(s, w):
+          if s.resume(w) == sched.BLOCKED:
+            diverged = {'clause': 'stuck_in_constructor', 'worker': w}
+            break
+    seen_events = {w: 0 for w in s.workers()}
+
+    def new_events(w, n0):
+      return [e for e in s.events[n0:] if e['w'] == w]
+
+    def advance_to_want(w) -> bool:
+      """Runs worker w through observation-only events until it is parked just before an acquire."""
+      for _ in range(6):
+        last = s.last.get(w)
+        if last is not None and last['e'].startswith('want_'):
+          return True
+        n0 = len(s.events)
+        st = s.resume(w)
+        evs = new_events(w, n0)
+        if st != sched.PARKED or any(e['e'] not in STUTTER for e in evs):
+          return bool(evs) and evs[-1]['e'].startswith('want_') and all(e['e'] in STUTTER for e in evs)
+      return False
+
+    k = 0
+    while diverged is None and k < len(steps):
+      action, w, pre, post = steps[k]
+      # ---- negative probes at this state
+      if probes:
+        for j in range(k, len(steps)):
+          a2, w2, pre2, _ = steps[j]
+          if a2 not in ACQUIRE_ACTIONS:
+            continue
+          lock = _lock_of_step(a2, w2, pre2)
+          if lock in stats.setdefault('_probed_locks', set()):
+            continue
+          # w2 is the next worker to take `lock`; is it waiting for it already, with the lock held?
+          stats['_probed_locks'].add(lock)      # look only at the first acquire of each lock from here
+          holder = _spec_holder(lock, pre)
+          if _is_null(holder) or holder == w2:
+            continue
+          if any(steps[i][1] == w2 for i in range(k, j)):
+            continue                             # w2 still has other steps to take before the acquire
+          if s.state.get(w2) != sched.PARKED or w2 in s.reserved.values():
+            continue
+          stats['probe_opportunities'] += 1
+          if not advance_to_want(w2):
+            diverged = {'clause': 'no_want_event_before_acquire', 'worker': w2, 'step': j, 'action': a2}
+            break
+          if not s.probe(w2):
+            diverged = {'clause': 'negative_probe', 'worker': w2, 'holder': holder, 'lock': lock[0],
+                        'step': k, 'action': a2,
+                        'event': s.violation.get('event') if s.violation else None}
+            break
+        stats['_probed_locks'] = set()
+        if diverged:
+          break
+      # ---- the step itself
+      if action == 'Choose':
+        ses.forced_op[w] = post['op'][w - 1]
+      matched = False
+      for _ in range(8):
+        n0 = len(s.events)
+        st = s.resume(w)
+        evs = new_events(w, n0)
+        real = [e for e in evs if e['e'] not in STUTTER]
+        if real:
+          if real[0]['e'] in EVENT_OF[action] and len(real) == 1:
+            matched = True
+          else:
+            diverged = {'clause': 'unexpected_event', 'step': k, 'action': action, 'worker': w,
+                        'expected': EVENT_OF[action], 'got': [e['e'] for e in real]}
+          break
+        if st == sched.FINISHED:
+          diverged = {'clause': 'worker_ended', 'step': k, 'action': action, 'worker': w,
+                      'crash': s.crash.get(w)}
+          break
+        if st == sched.BLOCKED:
+          diverged = {'clause': 'enabled_but_blocked', 'step': k, 'action': action, 'worker': w}
+          break
+      else:
+        diverged = {'clause': 'no_event', 'step': k, 'action': action, 'worker': w}
+      if s.check_intruders() is not None:
+        diverged = {'clause': 'negative_probe', 'late': True, 'step': k, **(s.violation or {})}
+      if matched:
+        stats['forced_steps'] += 1
+      k += 1
+    stats.pop('_probed_locks', None)
+    if diverged is None and tail:
+      policy = sched.RoundRobinPolicy(rng, quantum=3)
+      status = sched.drive(s, policy, rng, probe_p=1.0)
+    elif diverged is not None:
+      status = 'diverged'
+    if status != 'done':
+      s.abort()
+    res = ses.result(status)
+    res.stats.update(stats)
+    if diverged is not None:
+      res.violation = diverged
+    return res
